@@ -360,7 +360,8 @@ class FnSplicer:
             kwci, ob = loops[p['loop'] - 1]
             self.ed.insert(rf.ct(ob).end, '\n' + ins, 3)
             return
-        anchor = p['before']
+        after = 'after' in p
+        anchor = p['after'] if after else p['before']
         nth = p.get('nth', 1)
         atoks = [t.text for t in RustFile('<anchor>', anchor).toks if t.kind not in ('ws', 'lcomment', 'bcomment', 'doc')]
         ci = it.body[0] + 1; end = it.body[1]; seen = 0
@@ -370,6 +371,20 @@ class FnSplicer:
                 if prev in (';', '{', '}'):
                     seen += 1
                     if seen == nth:
+                        if after:
+                            # end of the anchored statement: the next ';' at the same nesting depth
+                            k = ci
+                            while k < end and rf.ct(k).text != ';':
+                                if rf.ct(k).text in ('(', '[', '{'):
+                                    k = rf.match(k) + 1
+                                elif rf.ct(k).text in (')', ']', '}'):
+                                    raise ExtractError(f'{self._where()}: anchor `{anchor}` is not a `;`-terminated statement')
+                                else:
+                                    k += 1
+                            if k >= end:
+                                raise ExtractError(f'{self._where()}: anchor `{anchor}` statement end not found')
+                            self.ed.insert(rf.ct(k).end, '\n' + ins, 3)
+                            return
                         self.ed.insert(rf.ct(ci).start, ins, 3)
                         return
             ci += 1
